@@ -121,6 +121,8 @@ def pmap(fn, items, procs=None, chunk=64):
 PRELUDE = 0          # when k > 0: objects whose sequence has crc32 % k == 0 get prelude() before the query under test
 
 
+DERIVED = 0          # when k > 0: for sequences with crc32 % k == 2 the object handed back is not the constructed one but its
+                     # get_shuffled_sequence(frozen = every position): the same sequence, built by the sampler's code path
 DECORATE = 0         # when k > 0: sequences with crc32 % k == 1 are handed over as a user might paste them (decorate())
 
 
@@ -142,12 +144,16 @@ def SP(seq):
     from localcider.sequenceParameters import SequenceParameters
     given = seq
     h = 0
-    if (PRELUDE or DECORATE) and isinstance(seq, str) and seq:
+    if (PRELUDE or DECORATE or DERIVED) and isinstance(seq, str) and seq:
         import zlib
         h = zlib.crc32(seq.encode('utf-8', 'replace'))
         if DECORATE and h % DECORATE == 1 and seq.isalpha() and seq.isupper() and seq.isascii():
             given = decorate(seq, h)
     o = SequenceParameters(given)
+    if DERIVED and h and h % DERIVED == 2 and given is seq:
+        c = o.get_shuffled_sequence(frozen=set(range(len(seq))))
+        if c.get_sequence() == seq:      # (with everything frozen nothing can move; if it does, C17's check reports it)
+            o = c
     if PRELUDE and h and h % PRELUDE == 0:
         prelude(o, seq, h)
     return o
